@@ -20,11 +20,9 @@ import (
 	"errors"
 	"fmt"
 	"reflect"
-	"runtime/debug"
 	"strings"
 
 	"github.com/cloudwego/eino/internal/generic"
-	"github.com/cloudwego/eino/internal/safe"
 	"github.com/cloudwego/eino/schema"
 )
 
@@ -620,7 +618,10 @@ func fieldMap(mappings []*FieldMapping, allowMapKeyNotFound bool) func(any) (map
 						return nil, err
 					}
 
-					panic(safe.NewPanicErr(err, debug.Stack()))
+					// anything else (no such field, a field that is not exported, a map whose keys are not
+					// strings) was checked at compile time where the types are known; below an interface-typed
+					// value it depends on the request, so it is an error of the request as well
+					return nil, err
 				}
 
 				if i < len(fromPath)-1 {
@@ -768,7 +769,13 @@ func validateFieldMapping(predecessorType reflect.Type, successorType reflect.Ty
 		if predecessorIntermediateInterface {
 			checker := func(a any) (any, error) {
 				trueInType := reflect.TypeOf(a)
-				if !trueInType.AssignableTo(successorFieldType) {
+				if trueInType == nil {
+					switch successorFieldType.Kind() {
+					case reflect.Map, reflect.Slice, reflect.Ptr, reflect.Interface:
+					default:
+						return nil, fmt.Errorf("runtime check failed for mapping %s, field[%v]-[%v] is absolutely not assignable", mapping, trueInType, successorFieldType)
+					}
+				} else if !trueInType.AssignableTo(successorFieldType) {
 					return nil, fmt.Errorf("runtime check failed for mapping %s, field[%v]-[%v] is absolutely not assignable", mapping, trueInType, successorFieldType)
 				}
 				return a, nil
